@@ -267,6 +267,39 @@ def search(res, tier, boost=False):
                     res.violation('C07:evaluate-inaccurate:long-lived-operator', dict(curve=cname, iteration=k, elem=describe(e), t=t, x_hat=xh,
                                   value=float(a_), fresh_operator=float(b_), note='operator created on the mesh of iteration 0, element of the re-created mesh'))
                     break
+    # closed-form evaluation at times just after the end of the trial element (t = t_b (1 + d), d = 1e-15 ... 1e-6): by
+    # additivity of the time integral, (V 1_[ta,tb])(t) = (V 1_[ta,t])(t) - (V 1_[tb,t])(t); the two terms on the right are
+    # evaluated by the 't at the end of the element' branch, the left one by the 'after the element' branch
+    try:
+        from ..slchecks import StubElem as _Stub
+        worst_split = 0.0
+        for cname in ('UnitSquare', 'LShape') if tier == 'quick' and not boost else ('UnitSquare', 'LShape', 'PiSquare', 'UnitInterval'):
+            gamma, mesh = random_real_mesh(rng, cname, rng.randint(3, 8))
+            ops = RealOps(gamma, mesh)
+            for e in rng.sample(list(mesh.leaf_elements), min(6, len(mesh.leaf_elements))):
+                ta, tb = map(float, e.time_interval)
+                xa, xb = map(float, e.space_interval)
+                if tb <= 0:
+                    continue
+                for d in (1e-15, 1e-12, 1e-10, 3e-10, 9e-10, 1e-8, 1e-6):
+                    t = tb * (1 + d)
+                    if not t > tb:
+                        continue
+                    for xh in (xa + (xb - xa) * rng.choice([0.25, 0.5, 0.8]), rng.choice([xa, xb])):
+                        whole = ops.SL[True].evaluate_exact(e, t, xh)
+                        e1, e2 = _Stub((ta, t), (xa, xb), e.gamma_space), _Stub((tb, t), (xa, xb), e.gamma_space)
+                        parts = ops.SL[True].evaluate_exact(e1, t, xh) - ops.SL[True].evaluate_exact(e2, t, xh)
+                        res.count(('exact-just-after-end', cname, repr(e), d, xh), True)
+                        err = abs(whole - parts) / max(abs(parts), 1e-300)
+                        worst_split = max(worst_split, err)
+                        if err > 1e-8:
+                            res.violation('C07:evaluate_exact-inaccurate:just-after-end',
+                                          dict(curve=cname, elem=describe(e), t=repr(t), relative_offset_after_end=d, x_hat=xh, value=float(whole),
+                                               value_by_time_additivity=float(parts), rel_error=err))
+                            break
+        res.notes['worst_time_additivity_defect_closed_form'] = worst_split
+    except AssertionError as exc:
+        res.notes['just_after_end_skipped'] = repr(exc)
     # integer-typed requests: a user time grid given as Python ints ([0, 1, 2, 3]: the vertices of the unrefined mesh are
     # ints), evaluation times / parameters that are ints or numpy integers (a node of the same grid).  The value is a
     # function of the numbers, not of their types: the call with ints against the same call with floats.
